@@ -179,19 +179,19 @@ impl PacketSpace {
         }
         let mut include_ack_eliciting = false;
         let mut largest_acked = None;
-        let mut index = self
-            .sent_packets
-            .binary_search_by(|p| p.packet_number.cmp(&ack_frame.largest()))
-            .unwrap_or_else(|i| i.saturating_sub(1));
 
+        // Walk the records of packets that were sent (sorted by number), not every number the peer
+        // claims to acknowledge: the ranges are attacker-chosen and may span up to 2^62 numbers.
         for range in ack_frame.iter() {
-            for pn in range.rev() {
-                while index > 0 && self.sent_packets[index].packet_number > pn {
-                    index = index.saturating_sub(1);
-                }
-                if self.sent_packets[index].packet_number == pn
-                    && self.sent_packets[index].state != State::Acked
-                {
+            let lo = self
+                .sent_packets
+                .partition_point(|p| p.packet_number < *range.start());
+            let hi = self
+                .sent_packets
+                .partition_point(|p| p.packet_number <= *range.end());
+            for index in (lo..hi).rev() {
+                let pn = self.sent_packets[index].packet_number;
+                if self.sent_packets[index].state != State::Acked {
                     algorithm.on_packet_acked(&self.sent_packets[index]);
                     self.sent_packets[index].state = State::Acked;
                     include_ack_eliciting |= self.sent_packets[index].ack_eliciting;
